@@ -1,9 +1,9 @@
 (* C03: no premature verdicts.  The statement is the "definitive" clause of the one-step
    property ExtOK (first theorem), discharged for the same parsers as C02 (every buffer, suffix,
-   offset and object state).  PARTIAL: ParseHeaders, ParseAllURIParams,
-   ParseAllURIHdrs and the message parser are carried by the correspondence run and the
-   extension oracle only. *)
-From Sipsp Require Import Harness Resume Ext ExtLeaf ExtCSeq ExtTok ExtNameAddr ExtNested ExtLists ExtFLine ExtHdrLine.
+   offset and object state), for ParseHeaders, and for the message parser (C03_message, with the
+   property's two exemptions spelled out).  PARTIAL only in that ParseAllURIParams and
+   ParseAllURIHdrs are carried by the correspondence run and the extension oracle. *)
+From Sipsp Require Import Harness Resume Ext ExtLeaf ExtCSeq ExtTok ExtNameAddr ExtNested ExtLists ExtFLine ExtHdrLine ExtHeaders ExtMsg.
 Theorem C03_definitive_results_are_final :
   forall (S : Type) (P : list byte -> N -> S -> res S) (obs : S -> list Z) (Inv : N -> S -> Prop),
   ExtOK P obs Inv ->
@@ -58,3 +58,22 @@ Proof. exact (fun b x k s0 o e s => no_premature_verdict _ _ _ fline_ExtOK b x k
 Theorem C03_header_line : forall b x k s0 o e s, k <= nnat (length b) ->
   parse_hdrline b k s0 = Done o e s -> e <> EMore -> req (fun x => obs_hdr (hx_h x) ++ obs_opt_phvals (hx_pv x)) (parse_hdrline (b ++ x) k s0) (Done o e s).
 Proof. exact (fun b x k s0 o e s => no_premature_verdict _ _ _ hdrline_ExtOK b x k s0 o e s I). Qed.
+
+Theorem C03_header_block : forall b x k s0 o e s, k <= nnat (length b) ->
+  parse_headers b k s0 = Done o e s -> e <> EMore -> req (fun x => obs_hdrlst (hs_l x) ++ obs_opt_phvals (hs_pv x)) (parse_headers (b ++ x) k s0) (Done o e s).
+Proof. exact (fun b x k s0 o e s => no_premature_verdict _ _ _ headers_ExtOK b x k s0 o e s I). Qed.
+
+(* the message parser: unless the no-more-data flag is set, a definitive verdict is kept on every
+   extension, with the same offset and the same object - except that (1) a message without
+   Content-Length parsed with neither skip-body nor require-Content-Length has, by definition, the
+   rest of the buffer as its body (the property's exemption), and (2) after an error Buf is the whole
+   buffer the failing call was given (fin_rel: every other field is equal) *)
+Theorem C03_message : forall flags b x k s0 o e s, testbit flags bSIPMsgNoMoreData = false -> k <= nnat (length b) ->
+  parse_sipmsg flags b k s0 = Done o e s -> e <> EMore ->
+  body_is_rest flags e s \/
+  exists s'', parse_sipmsg flags (b ++ x) k s0 = Done o e s'' /\ fin_rel (nnat (length (b ++ x))) s s''.
+Proof. exact (fun flags b x k s0 o e s => msg_final flags b x k s0 o e s). Qed.
+
+Theorem C03_message_observations : forall L s s'', fin_rel L s s'' ->
+  obs_msg_nobuf s'' = obs_msg_nobuf s /\ (msg_err s = false -> obs_msg s'' = obs_msg s).
+Proof. exact fin_rel_obs. Qed.
